@@ -103,6 +103,7 @@ pub fn gen_graph(r: &mut Rng, thorough: bool) -> Graph {
         _ => r.range(20, if thorough { 96 } else { 48 }),
     } as usize;
     // more identities than fit one byte: ids 256.. (rare: such graphs are slow to check)
+    let n = if !gen::small() && r.chance(1, 12) { *r.pick(&[15usize, 16, 17, 18, 31, 32, 33, 34, 63, 64, 65, 66]) } else { n };
     let large = FORCE_LARGE.swap(false, std::sync::atomic::Ordering::Relaxed) || r.chance(1, if thorough { 60 } else { 150 });
     let n = if !gen::small() && large { r.range(257, nodes::MAX_NODES as u64) as usize } else { n };
     let with_ph = n >= 2 && r.chance(1, 3);
@@ -135,7 +136,7 @@ pub fn gen_graph(r: &mut Rng, thorough: bool) -> Graph {
 pub fn gen_ops(r: &mut Rng, n: usize, thorough: bool) -> Vec<ROp> {
     let len = r.range(1, if gen::small() { 3 } else if thorough { 12 } else { 8 }) as usize;
     let mut ops = vec![];
-    if n > 256 && r.chance(2, 3) {
+    if (n > 256 && r.chance(2, 3)) || (n >= 15 && r.chance(1, 6)) {
         // make sure more than 256 identities really get registered
         let mut all: Vec<(usize, usize)> = (0..n).map(|k| (k, 0)).collect();
         if r.chance(1, 2) {
